@@ -94,10 +94,30 @@ def gen_step(rnd, sb, desc, counter):
     if x < 0.80 and shells:
         c = rnd.choice(shells)
         return Step("rename_cmd", cmd=c.name, new="R%d" % counter)
+    if x < 0.86:
+        # edit the node list of an EXISTING target (add, replace or remove a node), or create/delete a named target
+        outs = [o for c in desc.cmds.values() if c.name != "Call" for o in c.outputs]
+        named = [t for t in desc.targets if t != ""]
+        if outs:
+            if named and rnd.random() < 0.75:
+                t = rnd.choice(named)
+                cur = list(desc.targets[t])
+                how = rnd.choice(["add", "add", "replace", "remove"])
+                if how == "add" or len(cur) == 0:
+                    cur.append(rnd.choice(outs))
+                elif how == "replace":
+                    cur[rnd.randrange(len(cur))] = rnd.choice(outs)
+                elif len(cur) > 1:
+                    cur.pop(rnd.randrange(len(cur)))
+                return Step("edit_target", target=t, nodes=sorted(set(cur), key=cur.index))
+            return Step("edit_target", target="t%d" % counter, nodes=[rnd.choice(outs)])
     if rnd.random() < 0.25 and prod:
         # build a single node through the frontend API instead of a target
         return Step("build", node=rnd.choice(prod), target=None, jobs=rnd.choice([None, 4]))
-    return Step("build", target=rnd.choice(list(desc.targets.keys())), jobs=rnd.choice([None, None, 4]), twice=rnd.random() < 0.1)
+    names = list(desc.targets.keys())
+    named = [t for t in names if t != ""]
+    tgt = rnd.choice(named) if named and rnd.random() < 0.5 else rnd.choice(names)
+    return Step("build", target=tgt, jobs=rnd.choice([None, None, 4]), twice=rnd.random() < 0.1)
 
 
 def apply_step(step, sb, desc):
@@ -180,6 +200,11 @@ def apply_step(step, sb, desc):
             c.inputs.remove(kw["node"]); c.outputs.append(kw["node"])
             return False
         refresh_all(desc)
+    elif k == "edit_target":
+        nodes = [n for n in kw["nodes"] if desc.producer(n) is not None or n in desc.sources]
+        if not nodes or desc.targets.get(kw["target"]) == nodes:
+            return False
+        desc.targets[kw["target"]] = nodes
     elif k == "rename_cmd":
         c = desc.cmds.get(kw["cmd"])
         if c is None or kw["new"] in desc.cmds:
